@@ -143,6 +143,14 @@ structure Reply where
   raw    : Bytes
 deriving Repr, DecidableEq
 
+/-- reply services whose successful replies carry data (Read Tag, Read Tag Fragmented, Get Attribute
+Single, Get Attributes All) -/
+def dataReplyServices : List Nat := [0xcc, 0xd2, 0x8e, 0x81]
+
+/-- `collect`'s value is not `None`: data for the reading services on status 0 / 6, `True` on status 0 -/
+def Reply.hasValue (r : Reply) : Bool :=
+  (dataReplyServices.contains r.svc && (r.status == 0 || r.status == 6)) || r.status == 0
+
 inductive Err where
   | rxerror        -- exception out of `client.__next__` (EOF inside a frame)
   | enipStatus     -- `ENIPStatusError`: non-zero encapsulation status
